@@ -10,7 +10,7 @@
    on the directory alone reads for k.
    The behaviour before the fixes and the witnesses that refuted the property then are kept in
    CompactionBefore.v / CompactionBeforeProofs.v (last section of this file). *)
-From KV Require Import Compaction CompactionProofs CompactionMerge CompactionReach CompactionReopen.
+From KV Require Import Compaction CompactionProofs CompactionMerge CompactionReach CompactionReopen CompactionFull.
 From KV Require CompactionBefore CompactionBeforeProofs.
 Open Scope N_scope.
 
@@ -89,6 +89,26 @@ Theorem C12_reopen_ignores_compaction : forall c k ops z lo hi r key, prog_ok k 
   cget (creopen (crange s lo hi z) r) key = cget (creopen s r) key.
 Proof. exact reopen_ignores_compaction. Qed.
 Print Assumptions C12_reopen_ignores_compaction.
+
+(* --- C12_reopen, in full. run_ok = SSTableMaxSize >= 1, log retirement only right after a full
+       flush (legit), no recovery ran out of memtable budget (noloss: C02's known finding D11).
+       After ANY such program (writes, transactions, flushes, compaction cycles, range compactions,
+       restarts) a reopen reads exactly what the running database read: with the log kept, and with
+       every flushed log file retired after a full flush. The proof goes through the ground truth
+       (C12_reads_latest): every read is the latest acknowledged write. --- *)
+Theorem C12_reopen : forall c k ops, run_ok c k ops ->
+  let s := crun c k ops in
+  (lost_log (eng (creopen s false)) = false ->
+   forall key, cget (creopen s false) key = cget s key) /\
+  (forall z, lost_log (eng (creopen (cfull s z) true)) = false ->
+   forall key, cget (creopen (cfull s z) true) key = cget s key).
+Proof. exact reopen_reads_same. Qed.
+Print Assumptions C12_reopen.
+
+Theorem C12_reads_latest : forall c k ops, run_ok c k ops ->
+  exists H, forall key, cget (crun c k ops) key = spec H key.
+Proof. exact reads_latest. Qed.
+Print Assumptions C12_reads_latest.
 
 (* --- before the fixes: one witness per defect (model of the pinned code) --- *)
 Theorem C12_before_fixes_same_key_in_two_l0_inputs :
